@@ -43,7 +43,7 @@ PATCH_INPUTS = [([{"op": "add", "path": "/z", "value": 1}], "ok"), ([{"op": "rem
                 ([{"op": "add", "path": "x", "value": 1}], "patch"),
                 ([{"op": "replace", "path": "/\\u00e9", "value": "changed"}], "ok"), ([{"op": "replace", "path": "/s%20t", "value": "changed"}], "ok"),
                 ([{"op": "test", "path": "/\\u00e9", "value": "literal"}], "ok")]     # flag-sensitive: --no-unicode-escape / -u decide which member is meant
-DOC_KINDS = ["valid", "malformed", "undecodable"]
+DOC_KINDS = ["valid", "malformed", "undecodable", "bom", "utf16"]       # the last two: valid JSON the library decodes from bytes (BOM, UTF-16)
 
 
 def gen(ctx):
@@ -54,7 +54,7 @@ def gen(ctx):
             for src in ("inline", "file"):
                 for sink in ("stdout", "file"):
                     for stdin in (False, True):
-                        if kind != "valid" and sink == "file":
+                        if (kind != "valid" and sink == "file") or (kind in ("bom", "utf16") and stdin):
                             continue
                         for q, qk in PATH_INPUTS:
                             for notc in (False, True):
@@ -73,7 +73,7 @@ def gen(ctx):
                             pass
             for sink in ("stdout", "file"):
                 for stdin in (False, True):
-                    if kind != "valid" and sink == "file":
+                    if (kind != "valid" and sink == "file") or (kind in ("bom", "utf16") and stdin):
                         continue
                     for ops, pk in PATCH_INPUTS:
                         for uri in (False, True):
@@ -120,7 +120,8 @@ def evaluate(ctx, cases):
 
     tmp = tempfile.mkdtemp(prefix="jpverif-cli-", dir="/var/tmp")
     try:
-        docs = {"valid": json.dumps(DOC).encode(), "malformed": b'{"a": [1, 2', "undecodable": b"\xff\xfe\xff"}
+        docs = {"valid": json.dumps(DOC).encode(), "malformed": b'{"a": [1, 2', "undecodable": b"\xff\xfe\xff",
+                "bom": b"\xef\xbb\xbf" + json.dumps(DOC, ensure_ascii=False).encode("utf-8"), "utf16": json.dumps(DOC, ensure_ascii=False).encode("utf-16")}
         for kname, data in docs.items():
             with open(os.path.join(tmp, kname + ".json"), "wb") as f:
                 f.write(data)
